@@ -24,7 +24,7 @@ import (
 
 func TestMain(m *testing.M) {
 	harness.Property("C19",
-		"families: component (a tuple of scheme from {ax25, ax25+agwpe, ardop, telnet, serial-tnc, x-y.z1}; optional non-empty user and optional password, both any UTF-8 text, percent-encoded byte by byte outside [A-Za-z0-9._~-]; host empty / name / name:port / [v6]:port over [A-Za-z0-9._-] in mixed case; 0..8 digis and a target over [A-Za-z0-9-]{1,9} in mixed case; 0..3 query parameters with keys [a-z_]{1,8} other than 'host' and arbitrary UTF-8 values percent-encoded the same way; optional non-empty host= parameter at any position) rendered as scheme://[user[:password]@]host/digi.../target[?query], then parsed and - if accepted - dialled with a recording stub registered (or not) for the scheme; raw (arbitrary strings and byte strings); mutated (1..3 byte edits/truncations of a rendered URL with URL-special and control bytes); dispatch (sequences of 1..14 register/unregister/dial calls on 3 schemes against a map model); registry (2..6 goroutines x 1..16 register/unregister/dial calls on 3 schemes with generated yield pacing, binary built with -race); inflight (1..8 register/unregister/dial calls made while a dial of a fourth scheme is in progress, from a second goroutine or from inside that dialer, against the map model; every call must return while the first dial is held). Non-trivial: component cases with >= 1 digi, userinfo or query; raw/mutated strings that net/url accepts (ParseURL's own logic ran); dispatch cases with >= 1 dial; registry cases where two different goroutines dial and write the same scheme; every inflight case. Distinct by hash(raw string, dial mode) / hash(op lists).",
+		"families: component (a tuple of scheme from {ax25, ax25+agwpe, ardop, telnet, serial-tnc, x-y.z1}; optional non-empty user and optional password, both any UTF-8 text, percent-encoded byte by byte outside [A-Za-z0-9._~-]; host empty / name / name:port / [v6]:port over [A-Za-z0-9._-] in mixed case; 0..8 digis and a target over [A-Za-z0-9-]{1,9} in mixed case; 0..3 query parameters with keys [a-z_]{1,8} other than 'host' and arbitrary UTF-8 values percent-encoded the same way; optional non-empty host= parameter at any position) rendered as scheme://[user[:password]@]host/digi.../target[?query], then parsed and - if accepted - dialled with a recording stub registered (or not) for the scheme; raw (arbitrary strings and byte strings); mutated (1..3 byte edits/truncations of a rendered URL with URL-special and control bytes); dispatch (sequences of 1..14 register/unregister/dial calls on 3 schemes - one lower case, one upper case, one mixed case, each always spelled the same way - against a map model); registry (2..6 goroutines x 1..16 register/unregister/dial calls on 3 schemes with generated yield pacing, binary built with -race); inflight (1..8 register/unregister/dial calls made while a dial of a fourth scheme is in progress, from a second goroutine or from inside that dialer, against the map model; every call must return while the first dial is held). Non-trivial: component cases with >= 1 digi, userinfo or query; raw/mutated strings that net/url accepts (ParseURL's own logic ran); dispatch cases with >= 1 dial; registry cases where two different goroutines dial and write the same scheme; every inflight case. Distinct by hash(raw string, dial mode) / hash(op lists).",
 		"the component domain is restricted to characters whose treatment by net/url is documented and unambiguous: schemes lower case (net/url lower-cases schemes), hosts without escapes, zones or empty ports (net/url keeps the host's case), user/password/query values fully percent-encoded (net/url decodes %XX in all three), no fragment, no empty path segment",
 		"when a tuple has both a target shorter than 3 characters and digis on ardop/telnet, either refusal is accepted; whether a URL value accompanies ErrDigisUnsupported is not constrained; whether the host= parameter itself stays in Params is not constrained",
 		"registry oracle: operations are stamped with a shared atomic counter before the call and after the return; a dial result must be explainable by a registration (or unregistration/initial state) that began before the dial returned and was not certainly overwritten before the dial began - a necessary condition of linearisability that a mutex-protected map always meets; pacing only influences which interleavings are seen, never the verdict",
@@ -88,7 +88,9 @@ type Case struct {
 
 var (
 	schemes    = []string{"ax25", "ax25+agwpe", "ardop", "telnet", "serial-tnc", "x-y.z1"}
-	regSchemes = []string{"ax25", "ardop", "telnet"}
+	// registry/dispatch families: every scheme is always spelled the same way, so the map model holds for a
+	// registry that compares scheme names verbatim as well as for one that folds case consistently
+	regSchemes = []string{"ax25", "ARDOP", "Mock-TNC"}
 )
 
 func noDigiScheme(s string) bool { return s == "ardop" || s == "telnet" }
@@ -258,6 +260,9 @@ func resultID(conn net.Conn, err error) int {
 
 func clearRegistry() {
 	for _, s := range schemes {
+		transport.UnregisterDialer(s)
+	}
+	for _, s := range regSchemes {
 		transport.UnregisterDialer(s)
 	}
 	transport.UnregisterDialer("decoy")
@@ -785,6 +790,9 @@ func genComp(t *rapid.T) *Comp {
 		k.Digis = append(k.Digis, genCall(t, "digi"))
 	}
 	k.Target = genCall(t, "target")
+	if rapid.IntRange(0, 11).Draw(t, "empty_target") == 0 {
+		k.Target = "" // the URL ends in "/": a target of zero characters (shorter than three) after the digi path
+	}
 	for i, n := 0, rapid.SampledFrom([]int{0, 0, 1, 2, 3}).Draw(t, "nparams"); i < n; i++ {
 		key := rapid.StringMatching(`[a-z_]{1,8}`).Draw(t, "key")
 		if key == "host" {
